@@ -14,6 +14,7 @@
 
 struct verif_cop_ghost __verif_cop;
 uint32_t __verif_cop_k, __verif_cop_slen;
+struct verif_cop_peer __verif_cop_peer;      /* never assigned: arbitrary scripted reply */
 
 /* the three co-process fields are contiguous ints: one assigns target */
 #define VM_COP_FIELDS(vm) __CPROVER_object_upto((char *)&(vm)->cop_in_fd, 3 * sizeof(int))
@@ -94,6 +95,20 @@ __CPROVER_ensures(!__verif_cop.inproc_called ==> __verif_cop.req_sent == 1)
 __CPROVER_ensures((!__verif_cop.inproc_called && COP_IS_SCALAR(args[0].tag)) ==> __verif_cop.req_len == 6u + 1u + SPEC_COP_PAYLEN_M(args[0].tag))
 __CPROVER_ensures((!__verif_cop.inproc_called && args[0].tag == TAG_STRING) ==> __verif_cop.req_len == 6u + 5u + __verif_cop_slen)
 #endif
+#ifdef COP_REPLY_ACCEPT
+/* C15.reply.accept: a well-formed reply IS accepted.  Whenever a co-process was available, the request went out, the
+ * response header was accepted by cop_recv_header (version 1, payload_len <= COP_MAX_PAYLOAD) with type FFI_RESULT, and
+ * the peer's script delivers the whole payload and the payload decodes to a transferable value, the call SUCCEEDS,
+ * *result is exactly that value (void for an empty payload) and the co-process is kept. */
+#define COP_REPLY_WF (!__verif_cop.inproc_called && __verif_cop.req_sent == 1 && !__verif_cop.req_fail && !__verif_cop.hdr_fail && \
+    __verif_cop_peer.type == COP_MSG_FFI_RESULT && \
+    (__verif_cop_peer.len == 0 || (__verif_cop_peer.pay_ok && __verif_cop_peer.deser_ok && COP_IS_TRANSFERABLE(__verif_cop_peer.val_tag))))
+__CPROVER_ensures(COP_REPLY_WF ==> __CPROVER_return_value)
+__CPROVER_ensures(COP_REPLY_WF ==> vm->cop_pid > 0)
+__CPROVER_ensures((COP_REPLY_WF && __verif_cop_peer.len == 0) ==> result->tag == TAG_VOID)
+__CPROVER_ensures((COP_REPLY_WF && __verif_cop_peer.len > 0) ==>
+                  (result->tag == __verif_cop_peer.val_tag && COP_VAL_BITS(result) == __verif_cop_peer.val_bits))
+#endif
 ;
 
 /* ===================== the real code, verbatim ===================== */
@@ -135,6 +150,12 @@ void h_call(void)
     VERIF_COVER(!ok && __verif_cop.pay_fail && !__verif_cop.hdr_fail);
     VERIF_COVER(__verif_cop.inproc_called);
     VERIF_COVER(ok && __verif_cop.started && __verif_cop.req_sent == 1);
+#ifdef COP_REPLY_ACCEPT
+    VERIF_COVER(ok && !__verif_cop.inproc_called && __verif_cop_peer.len > 8192 && __verif_cop_peer.len <= 65536);
+    VERIF_COVER(ok && !__verif_cop.inproc_called && __verif_cop_peer.len > 1000000 && __verif_cop_peer.val_tag == TAG_STRING);
+    VERIF_COVER(ok && !__verif_cop.inproc_called && __verif_cop_peer.len == 0);
+    VERIF_COVER(!ok && !__verif_cop.hdr_fail && !__verif_cop.req_fail && __verif_cop_peer.type == COP_MSG_FFI_RESULT && !__verif_cop_peer.deser_ok);
+#endif
 }
 
 void h_stop(void)
